@@ -120,6 +120,8 @@ class Ref:
             for k in [k for k in m if in_range(k, s, e)]:
                 del m[k]
             return "ok"
+        if name in ("scan", "rscan") and int(a[2]) > 10240:
+            return "err limit"        # ErrMaxScanLimitExceeded, before any request
         if name == "scan":
             s, e, limit = unhx(a[0]), unhx(a[1]), int(a[2])
             ks = sorted(k for k in m if in_range(k, s, e))[:limit]
@@ -190,17 +192,46 @@ def check_failed_call(ref, name, a, cf, lays, bats):
     return fails
 
 
-def check_op(ref, name, a, cf, lays, bats, impl):
-    """returns list of (oracle name, expected, detail) failures for one call"""
+def check_wire(ref, name, a, bats, wire):
+    """request fields the store-side result cannot show: ttl / per-pair ttls aligned with the pairs in every
+    served sub-batch, for_cas = atomic mode, key_only / reverse / remaining limit of scans, previous_not_exist"""
     fails = []
+    atomic = "0" if ref.nonatomic else "1"
+    for i, w in enumerate(wire):
+        f = w.split(":")
+        if f[0] == "put" and (f[1] != atomic or f[2] != a[2]):
+            fails.append(("wire-put-ttl-and-for_cas", "put:%s:%s" % (atomic, a[2]), w))
+        elif f[0] in ("del", "bdel") and f[1] != atomic:
+            fails.append(("wire-for_cas", atomic, w))
+        elif f[0] == "bput":
+            items = lst(bats[i]) if i < len(bats) else []
+            first_ttl = items[0].split(":")[2] if items else "0"
+            if f[1] != atomic or f[3] != f[4] or int(f[4]) != len(items) or f[2] != first_ttl:
+                fails.append(("wire-batch-put-ttls-aligned-with-pairs", "bput:%s:%s:%d:%d" % (atomic, first_ttl, len(items), len(items)), w))
+        elif f[0] == "scan":
+            if f[1] != a[3] or f[2] != ("1" if name == "rscan" else "0"):
+                fails.append(("wire-scan-key_only-reverse", "scan:%s:%s" % (a[3], "1" if name == "rscan" else "0"), w))
+        elif f[0] == "cas" and f[1] != ("1" if a[1] == "N" else "0"):
+            fails.append(("wire-cas-previous_not_exist", a[1], w))
+    sl = [int(w.split(":")[3]) for w in wire if w.startswith("scan:")]
+    if sl and (sl[0] != int(a[2]) or any(x < y for x, y in zip(sl, sl[1:])) or min(sl) < 1):
+        fails.append(("wire-scan-limit-is-the-remaining-limit", a[2], str(sl)))
+    return fails
+
+
+def check_op(ref, name, a, cf, lays, bats, impl, wire=()):
+    """returns list of (oracle name, expected, detail) failures for one call"""
+    fails = check_wire(ref, name, a, bats, wire)
     if impl == "err injected" and "FAIL" in lays:
-        return check_failed_call(ref, name, a, cf, lays, bats)
+        return fails + check_failed_call(ref, name, a, cf, lays, bats)
     lays = [l for l in lays if l != "FAIL"]
     exp = ref.expected(name, a, cf)
     if name in ("scan", "rscan"):
         f = impl.split(" ")
+        if exp.startswith("err"):
+            return fails + ([] if impl == exp else [("scan-limit-error", exp, impl)])
         if f[0] != "ok" or len(f) != 3:
-            return [("call-succeeds", exp, "call failed: " + impl)]
+            return fails + [("call-succeeds", exp, "call failed: " + impl)]
         ks = [unhx(k) for k in lst(f[1])]
         s, e, limit, keyonly = unhx(a[0]), unhx(a[1]), int(a[2]), a[3] == "1"
         if len(ks) > limit:
@@ -264,7 +295,8 @@ def parse_op(line):
     lays = f[li][2:].split(";") if f[li] != "L=none" else []
     bats = f[li + 1][2:].split(";") if f[li + 1] != "B=none" else []
     n = f[li + 2][2:].split(",")
-    return int(f[1]), int(f[2]), f[3], args, cf, lays, bats, (int(n[0]), int(n[1])), f[-1]
+    wire = f[li + 3][2:].split(";") if f[li + 3].startswith("W=") and f[li + 3] != "W=none" else []
+    return int(f[1]), int(f[2]), f[3], args, cf, lays, bats, (int(n[0]), int(n[1])), f[-1], wire
 
 
 def check_history(h):
@@ -404,7 +436,7 @@ def main(tier, replay):
                         if bad[0]:
                             conc_fail.append((chunk, int(f[1]), bad[0]))
                 elif line.startswith("OP\t"):
-                    sid, idx, name, args, cf, lays, bats, (nrpc, nerr), impl = parse_op(line)
+                    sid, idx, name, args, cf, lays, bats, (nrpc, nerr), impl, wire = parse_op(line)
                     sid = (chunk, sid)
                     stats["ops"] += 1
                     stats["served_rpcs"] += len(lays); stats["region_errors"] += nerr
@@ -420,7 +452,7 @@ def main(tier, replay):
                             fallback.append(line[:400])
                     if len(samples) < 6 and len(lays) > 1 and nerr and stats["ops"] % 7 == 0:
                         samples.append(line[:400])
-                    fails = check_op(ref, name, args, cf, lays, bats, impl)
+                    fails = check_op(ref, name, args, cf, lays, bats, impl, wire)
                     stats["oracle_evals"] += 1
                     for (oname, exp, detail) in fails:
                         specs[sid] = cur_spec
